@@ -4,7 +4,7 @@ From Coq Require Export List NArith ZArith Bool.
 Export ListNotations.
 Local Open Scope N_scope.
 
-Definition byte := N.
+Notation byte := N (only parsing).
 
 Inductive err := OOB | Hang | BadArg | TableOOB | Other.
 Inductive res (A : Type) := Ok (a : A) | Err (e : err).
